@@ -276,10 +276,14 @@ def cases(rng, tier, shard, nshards):
             meta = {'family': f'slow-isodata({"20+" if its > 20 else "<=20"} updates)'}
         if len(pts) < nmin:
             pts, meta = gen.curve(rng, nmax=80, nmin=nmin, family='mrc')
+        lay = None
+        if rng.random() < 0.05:
+            # byte counts against a block index as int64: squares of y differences do not fit int64
+            pts, meta, lay = gen.tall_int_curve(rng, nmax=60, nmin=max(nmin, 5)), {'family': 'tall-int64'}, 'i64'
         if float(np.max(np.abs(pts))) > 1e15:
             pts = pts.copy()
             pts[:, 1] = pts[:, 1] / 1e4
-        yield {'points': pts, 'family': meta['family'], 'layout': gen.pick_layout(rng, pts), 'detector': det,
+        yield {'points': pts, 'family': meta['family'], 'layout': lay or gen.pick_layout(rng, pts), 'detector': det,
                'fit': pick(rng, ['bestfit', 'pointfit']), 'cost': pick(rng, ['rmse', 'rss']),
                'refinement': pick(rng, ['none', 'original', 'original', 'original', 'adjusted', 'adjusted']), 'limit': int(rng.integers(4, 13))}
 
